@@ -791,3 +791,433 @@ def c07e(chk):
         full = [t for b, t in r.calls() if callee_is(t["callee"], N.INDEX) and "RangeFull" in " ".join(t["callee"].get("args", []))]
         chk.ob("C07.e", "read::Builder::read/whole-input-then-detect", len(rte) == 2 and same and bool(det) and len(full) >= 1, r.loc(),
                "both transports read_to_end into one buffer; detection and parsing see the complete slice")
+
+
+# ====================================================================================
+# C16
+# ====================================================================================
+ARRAY_NEW = "sfs_core::array::Array::<T>::new"
+ARRAY_NEW_UNCHECKED = "sfs_core::array::Array::<T>::new_unchecked"
+READ_ENTRIES = [READ_ARRAY, TEXT + "read_scs", TEXT + "parse_scs", READ_BUILDER_READ]
+IO_READ_METHODS = ("std::io::Read::", "std::io::BufRead::")
+
+
+def check_C16(chk):
+    chk.explanation = (
+        "Structural clauses of C16: (a) everything reachable from npy::read_array touches the reader only through read_exact and fill_buf "
+        "(a short read is an error, never accepted); (b) the value loop of TypeDescriptor::read can only be left through the `fill_buf()? is "
+        "empty` edge or a `?` error edge, so every trailing byte becomes (part of) a value and is counted; (c) on every read path the array is "
+        "built by the checked constructor Array::new, whose Ok is constructed only when data.len() == shape.elements(); unchecked constructors "
+        "are unreachable from the read entry points except inside Array::new; (d) the text parser collects the whole token iterator before the "
+        "shape check; (e) in view/fold/stat the read dominates the writer and nothing fallible follows it, and main exits non-zero on Err.")
+    chk.not_decided = "which malformed *headers* nom rejects; wrap-around of the shape product on absurd shapes (reported under C17)"
+    c16a(chk)
+    c16b(chk)
+    c16c(chk)
+    c16d(chk)
+    c16e(chk)
+    for r, n in (("C16.a", 4), ("C16.b", 3), ("C16.c", 5), ("C16.d", 2), ("C16.e", 10)):
+        chk.floor(r, n)
+
+
+def c16a(chk):
+    prog = chk.prog
+    reach, parent = prog.reachable([READ_ARRAY])
+    n = 0
+    allowed = {"std::io::Read::read_exact", "std::io::BufRead::fill_buf"}
+    seen = {}
+    for p in sorted(reach):
+        f = prog.fn(p)
+        if f is None:
+            continue
+        chk.fns_analysed.add(p)
+        for b, t in f.calls():
+            cp = t["callee"].get("path") or ""
+            if cp.startswith(IO_READ_METHODS):
+                n += 1
+                chk.saw_calls()
+                seen[cp] = seen.get(cp, 0) + 1
+                if cp not in allowed:
+                    chk.ob("C16.a", "npy-read-path/%s@%s" % (cp.split("::")[-1], p.split("npy::")[-1]), False, f.loc(b),
+                           "`%s` on the npy read path can accept short data; only read_exact / fill_buf are allowed" % cp)
+    for cp in sorted(seen):
+        chk.ob("C16.a", "npy-read-path/uses/%s" % cp.split("::")[-1], cp in allowed, "", "%d call site(s) reachable from read_array" % seen[cp])
+    chk.ob("C16.a", "npy-read-path/read_exact-count", seen.get("std::io::Read::read_exact", 0) >= 24, "", "read_exact call sites on the npy read path: %d (magic, version, 2 length fields, dict, 20 decoders)" % seen.get("std::io::Read::read_exact", 0))
+    # every read_exact result is `?`-propagated
+    bad = []
+    for p in sorted(reach):
+        f = prog.fn(p)
+        if f is None:
+            continue
+        for b, t in f.calls():
+            if callee_is(t["callee"], "std::io::Read::read_exact") and an.try_branch_of(f, b) is None:
+                bad.append(f.loc(b))
+    chk.ob("C16.a", "npy-read-path/read_exact-errors-propagate", not bad, "", "read_exact results not passed to `?`: %s" % bad)
+
+
+def loop_blocks(f, b):
+    """blocks on a cycle through b"""
+    return {x for x in f.reachable_from(b) if b in f.reachable_from(x) and (x != b or f.reaches(b, b))}
+
+
+def c16b(chk):
+    f = chk.fn(TD_READ)
+    if f is None:
+        return
+    fb = an.calls(f, "std::io::BufRead::fill_buf")
+    if len(fb) != 1:
+        chk.fail("C16.b", "TypeDescriptor::read/fill_buf", f.loc(), "expected one fill_buf call")
+        return
+    L = loop_blocks(f, fb[0][0])
+    chk.ob("C16.b", "TypeDescriptor::read/loop-found", bool(L), f.loc(), "value loop around fill_buf")
+    if not L:
+        return
+    # classify exits
+    tb = an.try_branch_of(f, fb[0][0])
+    ie = None
+    for b, t in f.calls():
+        if callee_is(t["callee"], N.SLICE_IS_EMPTY) and b in L:
+            sl, info = f.slice_locals(t["args"][0])
+            if any(x[0] == fb[0][0] for x in info["calls"]):
+                sw = an.switches_on_call_result(f, b)
+                if sw:
+                    ie = (sw[0][0], f.term(sw[0][0])["otherwise"])
+    exits = []
+    for x in sorted(L):
+        for s in f.succ.get(x, []):
+            if s not in L:
+                if f.term(s)["k"] == "unreachable":
+                    continue
+                kind = "other"
+                if ie and x == ie[0] and s == ie[1]:
+                    kind = "eof"
+                else:
+                    t = f.term(x)
+                    if t["k"] == "switch":
+                        subj = an.switch_subject(f, x)
+                        if subj["kind"] == "discr" and "ControlFlow" in (subj.get("ty") or "") and s == an.edge_target(t, 1):
+                            kind = "error"
+                exits.append((x, s, kind))
+    others = [(f.loc(x), kind) for x, s, kind in exits if kind == "other"]
+    chk.ob("C16.b", "TypeDescriptor::read/exits=eof-or-error", not others and any(k == "eof" for _, _, k in exits) and sum(1 for _, _, k in exits if k == "error") >= 2, f.loc(),
+           "the loop may only end when fill_buf()? is empty or on an I/O error (exits: %s)" % [(f.loc(x), k) for x, s, k in exits])
+    # every iteration pushes the decoded value; eof edge returns Ok(values)
+    push = [b for b, t in f.calls() if callee_is(t["callee"], N.VEC_PUSH) and b in L]
+    chk.ob("C16.b", "TypeDescriptor::read/every-iteration-pushes", len(push) == 1 and RC.exactly_once_on_paths(f, f.term(ie[0])["arms"][0][1] if ie else None, fb[0][0], push)[0] if ie else False, f.loc(),
+           "each non-empty iteration decodes one value (`?`) and pushes it")
+
+
+def c16c(chk):
+    prog = chk.prog
+    reach, parent = prog.reachable(READ_ENTRIES)
+    bad = []
+    for p in sorted(reach):
+        f = prog.fn(p)
+        if f is None:
+            continue
+        for b, t in f.calls():
+            c = t["callee"]
+            if callee_is(c, ARRAY_NEW_UNCHECKED) and p != ARRAY_NEW:
+                bad.append(("new_unchecked", p, f.loc(b)))
+            if callee_is(c, "sfs_core::array::Array::<T>::from_element", "sfs_core::spectrum::Spectrum::<sfs_core::spectrum::Counts>::from_vec", "sfs_core::array::Array::<f64>::from_zeros", "sfs_core::spectrum::Spectrum::<sfs_core::spectrum::Counts>::from_zeros"):
+                bad.append((callee_name(c).split("::")[-1], p, f.loc(b)))
+    chk.ob("C16.c", "read-paths/no-unchecked-constructor", not bad, "", "unchecked array constructors reachable from the read entry points: %s" % bad)
+    ra = chk.fn(READ_ARRAY)
+    if ra is not None:
+        cs = an.calls(ra, ARRAY_NEW)
+        ok = len(cs) == 1
+        if ok:
+            # data argument is the vector returned by TypeDescriptor::read, shape from the header dict
+            sl, info = ra.slice_locals(cs[0][1]["args"][0])
+            from_read = any(callee_is(x[1]["callee"], TD_READ) for x in info["calls"])
+            sl2, info2 = ra.slice_locals(cs[0][1]["args"][1])
+            from_dict = (H + "HeaderDict", "shape") in info2["fields"]
+            ok = from_read and from_dict
+        chk.ob("C16.c", "read_array/Array::new(values, declared-shape)", ok, ra.loc(), "the decoded values and the declared shape go through the checked constructor")
+    ps = chk.fn(TEXT + "parse_scs")
+    if ps is not None or True:
+        cl = [c for c in prog.closures_of(TEXT + "parse_scs")]
+        ok = any(len(an.calls(c, "sfs_core::spectrum::Spectrum::<sfs_core::spectrum::Counts>::new")) == 1 for c in cl)
+        chk.ob("C16.c", "parse_scs/Scs::new(values, declared-shape)", ok, ps.loc() if ps else "", "text values and the header's shape go through the checked constructor")
+    sn = chk.fn("sfs_core::spectrum::Spectrum::<sfs_core::spectrum::Counts>::new")
+    if sn is not None:
+        chk.ob("C16.c", "Scs::new=Array::new", len(an.calls(sn, ARRAY_NEW)) == 1, sn.loc(), "Scs::new delegates to Array::new")
+    an_ = chk.fn(ARRAY_NEW)
+    if an_ is not None:
+        oks = [b for b, i, p, rv, s in an_.assigns() if rv["k"] == "aggregate" and rv.get("variant") == "Ok" and p[0] == 0]
+        good = False
+        for sb, st in an_.switches():
+            s = an.switch_subject(an_, sb)
+            if s["kind"] == "value" and s["root"] is not None:
+                d = an_.single_def(s["root"])
+                if d and d[0] == "assign" and d[3]["k"] == "binop" and d[3]["op"] == "Eq":
+                    names = set()
+                    for side in ("l", "r"):
+                        l = op_local(d[3][side])
+                        dd = an_.single_def(an_.copy_root(l)) if l is not None else None
+                        if dd and dd[0] == "call":
+                            names.add(callee_name(dd[2]["callee"]))
+                    if names == {"alloc::vec::Vec::<T, A>::len", "sfs_core::array::shape::Shape::elements"}:
+                        good = bool(oks) and all(an.dominated_by_edge(an_, sb, st["otherwise"], b) for b in oks)
+        chk.ob("C16.c", "Array::new/Ok<=len==elements", good, an_.loc(), "Ok(..) is constructed only on the true edge of data.len() == shape.elements()")
+    se = chk.fn("sfs_core::array::shape::Shape::elements")
+    if se is not None:
+        ok = False
+        for b, t in se.calls():
+            if callee_is(t["callee"], "core::iter::traits::iterator::Iterator::product"):
+                sl, info = se.slice_locals(t["args"][0])
+                adapt = [(x[1]["callee"].get("path") or "").split("::")[-1] for x in info["calls"]]
+                ok = sorted(adapt) == ["deref", "iter"]
+        chk.ob("C16.c", "Shape::elements=product-of-all-axes", ok, se.loc(), "elements() multiplies every axis length (no skip/take)")
+
+
+def c16d(chk):
+    ps = chk.fn(TEXT + "parse_scs")
+    if ps is None:
+        return
+    coll = [(b, t) for b, t in ps.calls() if callee_is(t["callee"], N.COLLECT)]
+    ok = False
+    adapt = None
+    if len(coll) == 1:
+        sl, info = ps.slice_locals(coll[0][1]["args"][0])
+        adapt = sorted((x[1]["callee"].get("path") or "").split("::")[-1] for x in info["calls"])
+        ty = " ".join(coll[0][1]["callee"].get("args", []))
+        ok = adapt == ["map", "split_ascii_whitespace"] and "core::result::Result<alloc::vec::Vec<f64>" in ty
+    chk.ob("C16.d", "parse_scs/all-tokens-collected", ok, ps.loc(), "every whitespace-separated token is parsed and collected (adaptors %s); a bad token fails the whole read" % adapt)
+    rs = chk.fn(TEXT + "read_scs")
+    if rs is not None:
+        r2s = an.calls(rs, "std::io::Read::read_to_string")
+        ok = len(r2s) == 1 and an.try_branch_of(rs, r2s[0][0]) is not None and len(an.calls(rs, TEXT + "parse_scs")) == 1
+        chk.ob("C16.d", "read_scs/whole-body-read", ok, rs.loc(), "the body is read to the end (read_to_string?) before parsing")
+
+
+def c16e(chk):
+    RC.no_partial_output(chk, "C16.e", "sfs::view::View::run", READ_BUILDER_READ, [RC.WRITE_PATH_OR_STDOUT])
+    RC.no_partial_output(chk, "C16.e", "sfs::fold::Fold::run", READ_BUILDER_READ, [RC.WRITE_PATH_OR_STDOUT])
+    # stat: the runner (stdout lock + rows) is created and run after read()?
+    f = chk.fn("sfs::stat::Stat::run")
+    if f is not None:
+        rd = an.calls(f, READ_BUILDER_READ)
+        nw = an.calls(f, "sfs::stat::runner::Runner::<std::io::stdio::StdoutLock<'static>>::new")
+        rn = [(b, t) for b, t in f.calls() if (t["callee"].get("path") or "") == "sfs::stat::runner::Runner::<W>::run"]
+        ok = False
+        if len(rd) == 1 and len(nw) == 1 and len(rn) == 1:
+            tb = an.try_branch_of(f, rd[0][0])
+            ok = tb is not None and an.dominated_by_edge(f, tb[1], tb[2], nw[0][0]) and an.dominated_by_edge(f, tb[1], tb[2], rn[0][0])
+        chk.ob("C16.e", "Stat::run/rows-after-read-succeeded", ok, f.loc(), "the statistics runner is created and run only on the success edge of read()?")
+    # stat runner: all statistics are computed (collect::<Result<Vec>>?) before the row is written
+    ws = chk.fn("sfs::stat::runner::Runner::<W>::write_statistics")
+    if ws is not None:
+        coll = [(b, t) for b, t in ws.calls() if callee_is(t["callee"], N.COLLECT)]
+        wd = an.calls(ws, "sfs::stat::runner::Runner::<W>::write_with_delimiter")
+        ok = False
+        if len(coll) == 1 and len(wd) == 1:
+            tb = an.try_branch_of(ws, coll[0][0])
+            ok = tb is not None and an.dominated_by_edge(ws, tb[1], tb[2], wd[0][0]) and "core::result::Result<alloc::vec::Vec<alloc::string::String>" in " ".join(coll[0][1]["callee"].get("args", []))
+        chk.ob("C16.e", "stat::Runner::write_statistics/compute-all-then-write", ok, ws.loc(), "a failing statistic prevents the whole row")
+    RC.who_may_write(chk, "C16.e")
+    RC.exit_status(chk, "C16.e")
+
+
+# ====================================================================================
+# C18
+# ====================================================================================
+SHORT_COUNT = ("std::io::Read::read", "std::io::Read::read_vectored", "std::io::Read::read_buf", "std::io::Write::write",
+               "std::io::Write::write_vectored", "std::io::BufRead::consume", "std::io::Read::bytes", "std::io::Read::take", "std::io::Read::chain")
+LOOPING_IO = ("std::io::Read::read_exact", "std::io::Read::read_to_end", "std::io::Read::read_to_string", "std::io::BufRead::read_line",
+              "std::io::Write::write_all", "std::io::Write::write_fmt", "std::io::BufRead::fill_buf", "std::io::Write::flush")
+DISCARDING = ("core::result::Result::<T, E>::ok", "core::result::Result::<T, E>::is_ok", "core::result::Result::<T, E>::is_err", "core::result::Result::<T, E>::err",
+              "core::result::Result::<T, E>::unwrap_or", "core::result::Result::<T, E>::unwrap_or_else", "core::result::Result::<T, E>::unwrap_or_default")
+
+
+def check_C18(chk):
+    chk.explanation = (
+        "Structural clauses of C18: (a) no short-count I/O primitive (read, write, read_vectored, consume, ...) is called anywhere in the "
+        "workspace; all I/O goes through std's loop-until-done methods, which retry short transfers and return the first error; (b) no "
+        "Result is discarded (never used, or only passed to ok/is_ok/is_err/unwrap_or*); (c) the slice returned by fill_buf may only be tested "
+        "for emptiness: a decision on its contents sees whatever the first read returned; (d) spectrum input is read_to_end before detection and "
+        "parsing; (e) no BufWriter whose unflushed data could be lost silently.")
+    chk.not_decided = "noodles' and flate2's own handling of short reads inside record parsing"
+    c18a(chk)
+    c18b(chk)
+    c18c(chk)
+    c07e(chk)
+    for o in chk.obs:
+        if o["rule"] == "C07.e":
+            o["rule"] = "C18.d"
+            o["id"] = "C18.d/" + o["key"]
+    chk.rule_counts["C18.d"] = chk.rule_counts.pop("C07.e", 0)
+    c18e(chk)
+    for r, n in (("C18.a", 7), ("C18.b", 100), ("C18.c", 3), ("C18.d", 4), ("C18.e", 1)):
+        chk.floor(r, n)
+
+
+def c18a(chk):
+    prog = chk.prog
+    counts = {}
+    for f in prog.fn_list:
+        if f.derived:
+            continue
+        for b, t in f.calls():
+            cp = t["callee"].get("path") or ""
+            if cp.startswith(("std::io::Read::", "std::io::Write::", "std::io::BufRead::")):
+                counts[cp] = counts.get(cp, 0) + 1
+                chk.saw_calls()
+                if cp in SHORT_COUNT or cp not in LOOPING_IO:
+                    chk.ob("C18.a", "short-count-io/%s@%s" % (cp.split("::")[-1], f.path), False, f.loc(b),
+                           "`%s` transfers an unspecified number of bytes per call (or is not on the reviewed loop-until-done list); results would depend on chunking" % cp)
+    for cp in sorted(counts):
+        if cp in LOOPING_IO:
+            chk.ob("C18.a", "io-method/%s" % cp.split("::", 2)[-1], True, "", "%d call site(s); loop-until-done by std's contract" % counts[cp])
+    zero = [cp for cp in SHORT_COUNT if counts.get(cp, 0) == 0]
+    chk.ob("C18.a", "short-count-io/none(control:looping-found=%s)" % (sum(counts.values()) > 0), len(zero) == len(SHORT_COUNT) and sum(counts.values()) >= 40, "",
+           "0 calls of %s; positive control: the same matcher finds %d calls of the looping siblings" % ([c.split("::")[-1] for c in SHORT_COUNT], sum(counts.values())), nontrivial=False)
+    chk.extra["io_method_counts"] = counts
+
+
+def local_uses(f, local):
+    """list of (bb, kind, detail) uses of a local (as operand / place root), excluding its definition"""
+    uses = []
+    for b in f.nodes():
+        for s in f.stmts(b):
+            if s["k"] != "assign":
+                continue
+            rv = s["rv"]
+            ps = []
+            if rv["k"] in ("ref", "rawptr", "discr"):
+                ps.append(P(rv["place"]))
+            for o in rv_operands(rv):
+                p = op_place(o)
+                if p:
+                    ps.append(p)
+            for p in ps:
+                if p[0] == local:
+                    uses.append((b, "stmt", rv["k"]))
+            lp = P(s["place"])
+            if lp[0] == local and lp[1]:
+                uses.append((b, "partial-write", ""))
+        t = f.term(b)
+        if t["k"] == "call":
+            for a in t["args"]:
+                p = op_place(a)
+                if p and p[0] == local:
+                    uses.append((b, "call", callee_name(t["callee"]) if t["callee"].get("path") else "indirect"))
+        elif t["k"] == "switch":
+            p = op_place(t["discr"])
+            if p and p[0] == local:
+                uses.append((b, "switch", ""))
+    return uses
+
+
+def c18b(chk):
+    prog = chk.prog
+    reviewed = {
+        ("sfs_core::input::Input::new", "std::env::var"): "env::var(..).is_err(): presence test of an environment variable, not an I/O result",
+    }
+    n = 0
+    for f in prog.fn_list:
+        if f.derived or "clap_builder" in f.path:
+            continue
+        for b, t in f.calls():
+            if not t["dest_ty"].startswith("core::result::Result<"):
+                continue
+            d = an.call_dest_local(t)
+            if d is None or d == 0:
+                n += 1
+                continue
+            n += 1
+            uses = local_uses(f, d)
+            nm = callee_name(t["callee"]) or "indirect"
+            key = (f.path, t["callee"].get("path") or "indirect")
+            if not uses:
+                chk.ob("C18.b", "discarded/%s@%s" % (nm, f.path), key in reviewed, f.loc(b), reviewed.get(key, "the Result of `%s` is never used (let _ = / statement position): an error would be swallowed" % nm))
+                continue
+            disc = [u for u in uses if u[1] == "call" and u[2] in DISCARDING]
+            if disc and len(disc) == len(uses):
+                chk.ob("C18.b", "discarded-via-%s/%s@%s" % (disc[0][2].split("::")[-1], nm, f.path), key in reviewed, f.loc(b),
+                       reviewed.get(key, "the Result of `%s` only flows into `%s`, which drops the error" % (nm, disc[0][2])))
+                continue
+            chk.ob("C18.b", "consumed/%s@%s#%d" % (nm.split("::")[-1], f.path, sum(1 for o in chk.obs if o["key"].startswith("consumed/%s@%s#" % (nm.split("::")[-1], f.path)))), True, f.loc(b),
+                   "Result consumed by %s" % sorted({u[2] or u[1] for u in uses})[:3], nontrivial=False)
+    chk.extra["result_calls_examined"] = n
+    # the `?` operator itself: every from_residual result is the function's return value
+    bad = []
+    for f in prog.fn_list:
+        if f.derived:
+            continue
+        for b, t in f.calls():
+            if callee_is(t["callee"], N.FROM_RESIDUAL) and P(t["dest"])[0] != 0:
+                bad.append(f.loc(b))
+    chk.ob("C18.b", "try-operator/residual-is-returned", not bad, "", "every `?` error edge assigns the function's return value (%d exceptions)" % len(bad))
+
+
+def c18c(chk):
+    prog = chk.prog
+    for f in prog.fn_list:
+        if f.derived:
+            continue
+        for b, t in f.calls():
+            if not callee_is(t["callee"], "std::io::BufRead::fill_buf"):
+                continue
+            chk.saw_calls()
+            # the slice: payload of the Ok / Continue
+            d = an.call_dest_local(t)
+            # forward flow: find every local derived from d by copies / payload projections / reborrows
+            derived = {d}
+            changed = True
+            while changed:
+                changed = False
+                for b2, i, p, rv, s in f.assigns():
+                    if p[1]:
+                        continue
+                    srcs = []
+                    if rv["k"] in ("use", "cast"):
+                        q = op_place(rv["op"])
+                        if q:
+                            srcs.append(q[0])
+                    if rv["k"] in ("ref", "rawptr"):
+                        srcs.append(P(rv["place"])[0])
+                    if any(x in derived for x in srcs) and p[0] not in derived:
+                        derived.add(p[0])
+                        changed = True
+                for b2, t2 in f.calls():
+                    if callee_is(t2["callee"], N.TRY_BRANCH) and op_local(t2["args"][0]) in derived:
+                        dl = an.call_dest_local(t2)
+                        if dl is not None and dl not in derived:
+                            derived.add(dl)
+                            changed = True
+            sinks = set()
+            for b2, t2 in f.calls():
+                if b2 == b:
+                    continue
+                if any(op_place(a) and op_place(a)[0] in derived for a in t2["args"]):
+                    nm = callee_name(t2["callee"])
+                    if callee_is(t2["callee"], N.TRY_BRANCH, N.FROM_RESIDUAL):
+                        continue
+                    sinks.add(nm)
+            for b2, i, p, rv, s in f.assigns():
+                if rv["k"] == "binop" and any(op_place(o) and op_place(o)[0] in derived for o in (rv["l"], rv["r"])):
+                    sinks.add("compare:" + rv["op"])
+                if rv["k"] == "unop" and rv["op"] == "PtrMetadata" and op_place(rv["operand"]) and op_place(rv["operand"])[0] in derived:
+                    sinks.add("len")
+            content = sorted(x for x in sinks if x not in ("core::slice::<impl [T]>::is_empty",))
+            chk.ob("C18.c", "fill_buf@%s/only-emptiness" % f.path, not content, f.loc(b),
+                   "the bytes returned by fill_buf (one chunk of unspecified length) may only be tested with is_empty(); here they also flow into %s, "
+                   "so the decision depends on how the stream was chunked" % content)
+
+
+def c18e(chk):
+    prog = chk.prog
+    bw = []
+    for f in prog.fn_list:
+        if f.derived:
+            continue
+        for l in f.locals:
+            if "std::io::buffered::bufwriter::BufWriter" in l["ty"] or "std::io::buffered::linewriter::LineWriter" in l["ty"]:
+                bw.append(f.path)
+    for a in prog.adts.values():
+        for v in a["variants"]:
+            for fld in v["fields"]:
+                if "BufWriter" in fld["ty"]:
+                    bw.append(a["path"])
+    chk.ob("C18.e", "no-BufWriter", not bw, "", "no BufWriter/LineWriter value exists in the workspace, so no buffered bytes can be lost on drop without an error (found in %s)" % sorted(set(bw)))
